@@ -212,6 +212,9 @@ func Summarize(r *core.Run, res []*DriverResult, classFilter func(class string) 
 		}
 		if !dr.Ran {
 			s.NotRunnable++
+			if !c.Safe {
+				continue // outside the safe sub-dialect: C01 judges whether it should compile
+			}
 			msg := dr.Fatal
 			if msg == "" {
 				msg = firstBuildError(dr.Output)
